@@ -259,6 +259,16 @@ func engineRule(g *Gen) string {
 			}
 			return Pick(g, []string{"ad", "*", "/x", "||", "^"}) + "$domain=" + strings.Join(vals, "|")
 		}
+		if g.Chance(1, 6) {
+			// $domain values whose hashes collide (the domains table is keyed by the hash of the value): a source below one
+			// of them reaches the other's bucket, where the rule must be re-checked
+			pr := Pick(g, collidingHosts)
+			vals := []string{pr[g.Intn(2)]}
+			if g.Chance(1, 3) {
+				vals = append(vals, Pick(g, hostPool))
+			}
+			return Pick(g, []string{"ad", "*", "/x", "^"}) + "$domain=" + strings.Join(vals, "|") + Pick(g, []string{"", ",script"})
+		}
 		// domains table
 		doms := append(append([]string{}, hostPool...), wildcardDomains...)
 		return Pick(g, []string{"ad", "*", "/x", "||", "^"}) + "$domain=" + joinVals(g, doms, 1, 3, 20, "|") + Pick(g, []string{"", ",script", ",third-party"})
@@ -369,6 +379,16 @@ func init() {
 				var reqs []Req
 				for j := 0; j < nreq; j++ {
 					reqs = append(reqs, engineURLReq(g, lines))
+				}
+				// sources at (and below) both members of every colliding $domain pair in play
+				for _, l := range lines {
+					for _, pr := range collidingHosts {
+						if (strings.Contains(l, "="+pr[0]) || strings.Contains(l, "="+pr[1])) && len(reqs) < nreq+16 {
+							for _, h := range pr {
+								reqs = append(reqs, Req{Kind: "url", URL: "http://example.org/ad/x", Source: "https://" + Pick(g, []string{"", "www."}) + h + "/", Type: 4})
+							}
+						}
+					}
 				}
 				// requests under www. over every scheme, for the rules whose literal is the scheme prefix
 				for _, l := range lines {
